@@ -51,10 +51,14 @@ const (
 	opP2JBad
 	opJ2THTTP
 	opPGeneric
+	opHTTPEmptyBody
+	opHTTPRejected
+	opHTTPFallbackOK
+	opT2JMissingRequired
 	nOps
 )
 
-var opNames = []string{"t2j", "j2t", "t2j-http", "t2j-truncated", "j2t-malformed", "dom-load-marshal", "cut", "get-by-path", "lookup", "p2j-j2p", "j2p-malformed", "p2j-truncated", "j2t-http", "proto-generic"}
+var opNames = []string{"t2j", "j2t", "t2j-http", "t2j-truncated", "j2t-malformed", "dom-load-marshal", "cut", "get-by-path", "lookup", "p2j-j2p", "j2p-malformed", "p2j-truncated", "j2t-http", "proto-generic", "http-empty-body", "http-fallback-rejected", "http-fallback-valid", "t2j-missing-required"}
 
 type Op struct {
 	Kind int `json:"k"`
@@ -71,6 +75,73 @@ type Case struct {
 }
 
 var badJSONForProto = []string{`{"zz_unknown": tru`, `{"zz_unknown":`, `{"zz_unknown":[1,`, `{"zz_unknown":{"a":1},`, `{"zz_unknown":"abc`, `{`, `{"zz_unknown":1,"zz_2":nul}`, `[`}
+
+// a fixed annotated service for the HTTP-mapping histories (requests with an empty body, requests that are
+// rejected because a required field has no source, conforming requests right after them, and a response whose
+// outer struct lacks a required field while it holds a nested struct)
+const httpFixtureIDL = `struct Inner { 1: string A }
+struct HReq {
+	1: required string Name (api.query = "name")
+	2: optional i32 Num (api.header = "num")
+	3: Inner In
+}
+struct HResp {
+	1: required string Must
+	2: string Dflt
+	3: Inner In
+}
+service H { HResp Call(1: HReq req) }
+`
+
+type httpFixture struct {
+	req, resp   *thrift.TypeDescriptor
+	plain       j2t.BinaryConv // EnableHttpMapping
+	fallback    j2t.BinaryConv // EnableHttpMapping + ReadHttpValueFallback + TracebackRequredOrRootFields
+	wantEmpty   []byte         // {1:"n"}
+	wantValid   []byte         // {1:"n",2:7}
+	respMissing []byte         // {3:{1:"x"}}: required field 1 absent
+}
+
+func newHTTPFixture() (*httpFixture, error) {
+	svc, err := thrift.NewDescritorFromContent(context.Background(), "h.thrift", httpFixtureIDL, nil, false)
+	if err != nil {
+		return nil, err
+	}
+	fn := svc.Functions()["Call"]
+	str := func(x string) *tm.Value { return &tm.Value{K: tm.STRING, S: []byte(x)} }
+	h := &httpFixture{req: fn.Request().Struct().FieldById(1).Type(), resp: fn.Response().Struct().FieldById(0).Type(),
+		plain:    j2t.NewBinaryConv(conv.Options{EnableHttpMapping: true}),
+		fallback: j2t.NewBinaryConv(conv.Options{EnableHttpMapping: true, ReadHttpValueFallback: true, TracebackRequredOrRootFields: true})}
+	h.wantEmpty = tm.Encode(&tm.Value{K: tm.STRUCT, Fields: []tm.FieldVal{{ID: 1, V: str("n")}}})
+	h.wantValid = tm.Encode(&tm.Value{K: tm.STRUCT, Fields: []tm.FieldVal{{ID: 1, V: str("n")}, {ID: 2, V: &tm.Value{K: tm.I32, I: 7}}}})
+	h.respMissing = tm.Encode(&tm.Value{K: tm.STRUCT, Fields: []tm.FieldVal{{ID: 3, V: &tm.Value{K: tm.STRUCT, Fields: []tm.FieldVal{{ID: 1, V: str("x")}}}}}})
+	return h, nil
+}
+
+func httpCtx(method, url, body string) (context.Context, error) {
+	var rd *bytes.Reader
+	if body != "" {
+		rd = bytes.NewReader([]byte(body))
+	}
+	var std *stdhttp.Request
+	var err error
+	if rd != nil {
+		std, err = stdhttp.NewRequest(method, url, rd)
+	} else {
+		std, err = stdhttp.NewRequest(method, url, nil)
+	}
+	if err != nil {
+		return nil, err
+	}
+	if body != "" {
+		std.Header.Set("Content-Type", "application/json")
+	}
+	req, err := dhttp.NewHTTPRequestFromStdReq(std)
+	if err != nil {
+		return nil, err
+	}
+	return context.WithValue(context.Background(), conv.CtxKeyHTTPRequest, req), nil
+}
 
 type recorder struct {
 	raw []byte
@@ -104,6 +175,7 @@ type env struct {
 	md       protoreflect.MessageDescriptor
 	ref      proto.Message
 	fieldRaw map[int16][]byte
+	hfix     *httpFixture
 }
 
 // run executes one operation and returns "" or a description of what is wrong; results the library returned are appended to keep.
@@ -300,6 +372,47 @@ func (e *env) run(op Op, keep *[]held) (msg string) {
 		if !bytes.Equal(in, cs.Msg) {
 			return "proto generic reads modified their input"
 		}
+	case opHTTPEmptyBody:
+		hctx, herr := httpCtx("GET", "http://example.com/call?name=n", "")
+		if herr != nil {
+			return "harness: " + herr.Error()
+		}
+		out, err := e.hfix.plain.Do(hctx, e.hfix.req, nil)
+		if err != nil {
+			return "j2t with http mapping fails on an empty-body request whose required field is in the query: " + err.Error()
+		}
+		*keep = append(*keep, held{"j2t result (empty body)", out, append([]byte(nil), out...)})
+		if !bytes.Equal(out, e.hfix.wantEmpty) {
+			return fmt.Sprintf("empty-body request: output %x, want %x", out, e.hfix.wantEmpty)
+		}
+	case opHTTPRejected:
+		body := `{"Num":7}`
+		hctx, herr := httpCtx("POST", "http://example.com/call", body)
+		if herr != nil {
+			return "harness: " + herr.Error()
+		}
+		if out, err := e.hfix.fallback.Do(hctx, e.hfix.req, []byte(body)); err == nil {
+			return fmt.Sprintf("a request whose required field has no value in any source is accepted: %x", out)
+		}
+	case opHTTPFallbackOK:
+		body := `{"Name":"n","Num":7}`
+		hctx, herr := httpCtx("POST", "http://example.com/call", body)
+		if herr != nil {
+			return "harness: " + herr.Error()
+		}
+		out, err := e.hfix.fallback.Do(hctx, e.hfix.req, []byte(body))
+		if err != nil {
+			return "a complete request (fields from the body, fallback on) is rejected: " + err.Error()
+		}
+		*keep = append(*keep, held{"j2t result (http fallback)", out, append([]byte(nil), out...)})
+		if !bytes.Equal(out, e.hfix.wantValid) {
+			return fmt.Sprintf("complete request with fallback: output %x, want %x", out, e.hfix.wantValid)
+		}
+	case opT2JMissingRequired:
+		in := append(make([]byte, 0, len(e.hfix.respMissing)+16), e.hfix.respMissing...)
+		if out, err := e.tj.Do(ctx, e.hfix.resp, in); err == nil {
+			return fmt.Sprintf("t2j accepts a message whose outer struct lacks a required field: %s", out)
+		}
 	case opP2JBad:
 		if len(cs.Msg) < 2 {
 			return ""
@@ -382,6 +495,9 @@ func check(c *pbt.Ctx, cs Case) {
 	}
 	e := &env{cs: cs, comp: comp, cut: cut, enc: tm.Encode(cs.V), tj: t2j.NewBinaryConv(conv.Options{}), jt: j2t.NewBinaryConv(conv.Options{}),
 		pj: p2j.NewBinaryConv(conv.Options{}), jp: j2p.NewBinaryConv(conv.Options{}), fieldRaw: map[int16][]byte{}}
+	if e.hfix, err = newHTTPFixture(); err != nil {
+		c.Failf("harness-idl", "http fixture IDL rejected: %v", err)
+	}
 	e.http = t2j.NewHTTPConv(meta.EncodingThriftBinary, comp.Fn)
 	e.jhttp = j2t.NewHTTPConv(meta.EncodingThriftBinary, comp.Fn)
 	e.msgCall, err = thrift.WrapBinaryBody(e.enc, "Call", thrift.CALL, 1, 0)
@@ -461,7 +577,7 @@ func check(c *pbt.Ctx, cs Case) {
 
 var Prop = pbt.Register(pbt.Prop[Case]{
 	Name: "TestSharedUse",
-	Rule: "generated Thrift descriptor + conforming message + JSON document, generated proto3 schema + message, and a drawn history: 1..8 goroutines, each with a drawn list of operations (t2j, j2t, t2j HTTPConv.Do, j2t HTTPConv.Do, proto DOM Load+Marshal, t2j on a truncated message, j2t on a truncated document, DOM Load+Marshal, MarshalTo, GetByPath, descriptor lookups, p2j+j2p, j2p on malformed documents incl. ones that fail while an unknown root member is skipped, p2j on a truncated message) sharing descriptors, converter objects and read-only inputs, in a -race binary; every successful operation is checked against the reference oracles (reference encoder, strict JSON reader, protobuf-go), failing inputs must fail, every result handed out is compared with its copy after all goroutines finished, inputs and descriptor dump must be unchanged; a data race reported by the race detector is a violation; non-trivial = >= 2 goroutines and >= 6 operations",
+	Rule: "generated Thrift descriptor + conforming message + JSON document, generated proto3 schema + message, and a drawn history: 1..8 goroutines, each with a drawn list of operations (t2j, j2t, t2j HTTPConv.Do, j2t HTTPConv.Do, proto DOM Load+Marshal, t2j on a truncated message, j2t on a truncated document, DOM Load+Marshal, MarshalTo, GetByPath, descriptor lookups, p2j+j2p, j2p on malformed documents incl. ones that fail while an unknown root member is skipped, p2j on a truncated message; on a fixed annotated service: an empty-body GET whose required field comes from the query, a request rejected because a required field has no source under ReadHttpValueFallback+Traceback, a complete request under the same options, t2j of a response whose outer struct lacks a required field while holding a nested struct) sharing descriptors, converter objects and read-only inputs, in a -race binary; every successful operation is checked against the reference oracles (reference encoder, strict JSON reader, protobuf-go), failing inputs must fail, every result handed out is compared with its copy after all goroutines finished, inputs and descriptor dump must be unchanged; a data race reported by the race detector is a violation; non-trivial = >= 2 goroutines and >= 6 operations",
 	Gen: func(t *rapid.T) Case {
 		cfg := tm.GenCfg{MaxDepth: 2, KeyKinds: tjson.SupportedKeys, Reqs: true, Aliases: true, ValidUTF8: true, FiniteDoubles: true, RootStruct: true, WireOrder: true, MaxWidth: 4}
 		u := tm.GenUniverse(t, cfg)
